@@ -70,15 +70,19 @@ M = {
     # C01: arguments are split at every comma
     'split-at-comma': ('ArgSplit.tla', 'start2 == IF hit THEN i + 2 ELSE start', 'start2 == IF hit THEN i + 1 ELSE start',
                        'MC_ArgSplit.tla', 'MC_ArgSplit_quick.cfg', ['RoundTrip']),
-    # C09: the `?` marker counts as an argument
-    'nullable-marker-is-code': ('Closure.tla', 'Codes == {"i", "u", "f", "s", "o", "n", "a", "h"}', 'Codes == {"i", "u", "f", "s", "o", "n", "a", "h", "?"}',
-                                'MC_Closure.tla', 'MC_Closure.cfg', ['OnePerCode', 'InOrder', 'Agrees']),
     # C12: a matcher given to `filter` replaces the current one
     'filter-replaces': ('Matcher.tla', '''       ELSE Collapse([c |-> "acc", alts |-> cur.alts \\o Specifics(pos), excl |-> excl2,''',
-                        '''       ELSE Collapse([c |-> "acc", alts |-> Specifics(pos), excl |-> excl2,''', 'MC_Matcher.tla', 'MC_Matcher_quick.cfg', ['LawRefine']),
+                        '''       ELSE Collapse([c |-> "acc", alts |-> Specifics(pos), excl |-> excl2,''', 'MC_Matcher.tla', 'MC_Matcher_quick.cfg', ['LawRefine', 'LawAccumulate']),
     # C05: a comma list needs all of its alternatives
-    'list-needs-all': ('Matcher.tla', '/\\ (Len(t.pos) = 0 \\/ \\E i \\in 1..Len(t.pos) : TextSemC(t.pos[i], cs))', '/\\ (Len(t.pos) = 0 \\/ \\A i \\in 1..Len(t.pos) : TextSemC(t.pos[i], cs))',
-                       'MC_Matcher.tla', 'MC_Matcher_quick.cfg', None),
+    'list-needs-all': ('Matcher.tla', 'ELSE /\\ (Len(top.pos) = 0 \\/ \\E i \\in 1..Len(top.pos) : PatSem(top.pos[i], m))',
+                       'ELSE /\\ (Len(top.pos) = 0 \\/ \\A i \\in 1..Len(top.pos) : PatSem(top.pos[i], m))',
+                       'MC_Matcher.tla', 'MC_Matcher_quick.cfg', ['LawUnionMinus']),
+    # C05: exclusions are ignored
+    'exclusions-ignored': ('Matcher.tla', '            /\\ ~ \\E i \\in 1..Len(top.neg) : PatSem(top.neg[i], m)', '            /\\ TRUE',
+                           'MC_Matcher.tla', 'MC_Matcher_quick.cfg', ['LawUnionMinus', 'LawAccumulate']),
+    # C09: arrays are not reported
+    'arrays-skipped': ('Closure.tla', 'Codes == {"i", "u", "f", "s", "o", "n", "a", "h"}', 'Codes == {"i", "u", "f", "s", "o", "n", "h"}',
+                       'MC_Closure.tla', 'MC_Closure.cfg', ['OnePerCode', 'InOrder', 'Agrees']),
 }
 
 
